@@ -51,8 +51,8 @@ Apply(r) ==
     [] r.e = "dlv" /\ r.k = "counter" -> ObsDeliverCounter(r.id, r.v, r.own)
     [] r.e = "dlv" /\ r.k = "gauge"   -> ObsDeliverGauge(r.id, r.v, r.own)
     [] r.e = "dlv" /\ r.k = "timer"   -> ObsDeliverTimer(r.t, r.id, r.v)
-    [] r.e = "updcall" -> ObsUpdateCall(r.id, r.v, r.inert)
-    [] r.e = "updret"  -> ObsUpdateReturn(r.id, r.inert)
+    [] r.e = "updcall" -> ObsUpdateCall(r.id, r.v, r.inert, r.o)
+    [] r.e = "updret"  -> ObsUpdateReturn(r.id, r.inert, r.o)
     [] r.e = "passb"   -> ObsPassBegin(r.p)
     [] r.e = "passe"   -> ObsPassEnd(r.p)
     [] r.e = "quiesce" -> ObsQuiesce
